@@ -1,24 +1,25 @@
-//! A flag that can be raised to wake a task.
+//! A flag that can be raised to wake the tasks waiting on it.
 //!
-//! Copied wholesale from <https://docs.rs/futures/latest/futures/task/struct.AtomicWaker.html>
-//! unfortunately not aware of crated version!
+//! Any number of tasks may wait on (clones of) the same flag: each registers its own waker.
 
 use std::{
+	mem::take,
 	pin::Pin,
 	sync::{
 		atomic::{AtomicBool, Ordering::Relaxed},
-		Arc,
+		Arc, Mutex, PoisonError,
 	},
+	task::Waker,
 };
 
 use futures::{
 	future::Future,
-	task::{AtomicWaker, Context, Poll},
+	task::{Context, Poll},
 };
 
 #[derive(Debug)]
 struct Inner {
-	waker: AtomicWaker,
+	wakers: Mutex<Vec<Waker>>,
 	set: AtomicBool,
 }
 
@@ -34,7 +35,7 @@ impl Default for Flag {
 impl Flag {
 	pub fn new(value: bool) -> Self {
 		Self(Arc::new(Inner {
-			waker: AtomicWaker::new(),
+			wakers: Mutex::new(Vec::new()),
 			set: AtomicBool::new(value),
 		}))
 	}
@@ -47,7 +48,10 @@ impl Flag {
 		#[cfg(watchexec_verif)]
 		crate::verif::emit("raise", self.verif_id(), 0);
 		self.0.set.store(true, Relaxed);
-		self.0.waker.wake();
+		let wakers = take(&mut *self.0.wakers.lock().unwrap_or_else(PoisonError::into_inner));
+		for waker in wakers {
+			waker.wake();
+		}
 	}
 }
 
@@ -68,14 +72,17 @@ impl Future for Flag {
 			return Poll::Ready(());
 		}
 
-		self.0.waker.register(cx.waker());
+		let mut wakers = self.0.wakers.lock().unwrap_or_else(PoisonError::into_inner);
 
-		// Need to check condition **after** `register` to avoid a race
-		// condition that would result in lost notifications.
+		// Need to check condition **while holding the lock** to avoid a race condition that would
+		// result in lost notifications: `raise()` sets the flag before it takes the wakers.
 		if self.0.set.load(Relaxed) {
-			Poll::Ready(())
-		} else {
-			Poll::Pending
+			return Poll::Ready(());
 		}
+
+		if !wakers.iter().any(|waker| waker.will_wake(cx.waker())) {
+			wakers.push(cx.waker().clone());
+		}
+		Poll::Pending
 	}
 }
